@@ -138,6 +138,10 @@ fn setup(s: &mut Src, which: u8, sk: SupKind, sh: &XShape) -> Option<(Exec, Slot
     Some((ex, slots, r))
 }
 
+pub fn setup_for_selftest(s: &mut Src, which: u8, sk: SupKind) -> Option<(Exec, Slots, u64)> {
+    setup(s, which, sk, &XQ)
+}
+
 macro_rules! exec_harness {
     ($name:ident, $unwind:literal, $h:tt, $which:literal, $sk:expr, $shape:expr) => {
         harness!($name, $unwind, |s| {
